@@ -179,12 +179,6 @@ impl ToRange for Expression { #[verifier::external_body] fn to_range(&self) -> (
 // each comment of the list behind [newline, indent]: the comments are the same, in order (the flat_map closure, class B)
 #[verifier::external_body] pub fn indented_comments(ctx: &Context, shape: Shape, comments: Vec<Token>) -> (r: Vec<Token>)
     ensures cmts(r@) == cmts(comments@) { unimplemented!() /* .iter().flat_map(|x| vec![newline, indent, x.to_owned()]).collect() */ }
-// the comments an operator token carries in front of / behind itself, and those in front of an expression (GetLeadingTrivia / GetTrailingTrivia)
-pub uninterp spec fn binop_lead_comments(b: BinOp) -> Seq<Token>;
-pub uninterp spec fn binop_trail_comments(b: BinOp) -> Seq<Token>;
-pub uninterp spec fn expr_lead_comments(e: Expression) -> Seq<Token>;
-pub uninterp spec fn binop_lead_trivia(b: BinOp) -> Seq<Token>;
-pub uninterp spec fn binop_trail_trivia(b: BinOp) -> Seq<Token>;
 """, module="formatters::expression"),
         Fn(EX, "hang_binop", contract="""
     ensures binop_id(r) == binop_id(binop),
